@@ -17,6 +17,15 @@ CHECKS = {
          "encoding/csv trusted; cell contents sampled from an awkward-content table + seeded random bytes; CLI path covered by the System engine",
          "TLA+ spec Ingest.tla; TLC-enumerated scenarios replayed into pkg/sorter+pkg/ingest; TLC trace validation (TraceIngest.tla) of real-scale ingests",
          "DESIGN.md 5/C01"),
+ "C02": ("ingest", "model_checking",
+         "TLC checks RunIndependent on IngestGen (for unique keys every run size yields the same table); seeded real-scale tables are "
+         "ingested under permuted row orders x run sizes forcing 0..k spills x 1..16 workers x delimiters, into the map store and a real "
+         "badger store, and committed / re-committed through the real command line; TraceIngest.tla keeps sumOf: content -> identifier and "
+         "cidOf: identifier -> content and TLC rejects any event making identity non-functional or non-injective (neighbour tables differ in "
+         "one cell / column name / column order / key) or a re-commit of unchanged content that creates a commit.",
+         "hash collisions outside the model; content identity computed by the harness from the parsed rows; demanded for unique keys only (as stated)",
+         "TLA+ specs Ingest.tla (RunIndependent, TLC) + TraceIngest.tla: TLC trace validation of real ingests and CLI commits",
+         "DESIGN.md 5/C02"),
  "C03": ("ingest", "model_checking",
          "Objects!TableWellFormed (row count, block sizes, strictly ascending keys, exact block indices, table index = first key per block, "
          "doctor clean) is evaluated by TLC with B=255 on the projection of every real table stored by the producers: ~7,000 padded "
@@ -34,6 +43,15 @@ CHECKS = {
          "tables are built through the real ingest with unique keys; `wrgl diff` CLI rendering not exercised",
          "TLA+ spec Diff.tla; TLC-enumerated table pairs replayed into pkg/diff; TLC trace validation (TraceDiff.tla)",
          "DESIGN.md 5/C04"),
+ "C19": ("ingest", "model_checking",
+         "The sorter's design operators in Ingest.tla (sorted runs, k-way merge with the tie rule, dedupe against no previous key) are "
+         "checked by TLC against the contract for every input of <=3 (quick) / <=4 (thorough) rows x 5 key shapes (composite keys whose first "
+         "component ties, key column not first, no key) x 3 run sizes; every scenario x 8 removed-column sets (before / between / after the key "
+         "columns) x padding across a 255-row boundary is replayed through BOTH real outputs (SortedBlocks decoded, SortedRows), compared "
+         "with the expectation and with each other, and no spill file may remain after Close.",
+         "removed columns are never key columns; with duplicate keys either duplicate may survive in either output",
+         "TLA+ spec Ingest.tla; TLC-enumerated scenarios replayed into pkg/sorter (both outputs)",
+         "DESIGN.md 5/C19"),
  "C11": ("graph", "model_checking",
          "Graph.tla defines ancestry, walks and the merge-base contract (AllowedBases) and transcribes the code's lock-step algorithm "
          "(SeekAsCoded); TLC enumerates all commit DAGs of 4 (quick) / 5 (thorough) commits x all clock assignments from {1,2,3} and exports "
@@ -51,6 +69,15 @@ CHECKS = {
          "commit objects named by refs/parents exist; tables are complete or absent",
          "TLA+ spec Prune.tla; TLC-enumerated repositories replayed into pkg/prune and the CLI; TLC trace validation (TracePrune.tla)",
          "DESIGN.md 5/C12"),
+ "C20": ("hashset", "model_checking",
+         "HashSet.tla models the on-disk sorted hash set (bucket search through the fan-out, batched insertion grouped by insert offset, "
+         "shift from the back, fan-out update, reopen); TLC checks Sorted, FanoutConsistent, exact membership after flush and reopen for all "
+         "operation sequences to depth 7/11 and exports every sequence of depth 5 (quick: 98,304) / 6 (thorough: 786,432) with the allowed "
+         "Has-answers; each is replayed on the real index.HashSet on a real file with answers and file projection compared; real-scale "
+         "random traces (hundreds of hashes sharing first bytes 00/ff, batch 1..50, repeats, reopen) are validated by TLC (TraceHashSet.tla).",
+         "answers for added-but-unflushed hashes are free (statement speaks about the flushed set); Len() not judged",
+         "TLA+ spec HashSet.tla; TLC-enumerated operation sequences replayed into pkg/index; TLC trace validation (TraceHashSet.tla)",
+         "DESIGN.md 5/C20"),
  "C15": ("refs", "model_checking",
          "TLC explores the ref-store specification (Refs.tla) exhaustively over an alphabet of names with '_', '%', case variants "
          "and nested prefixes; every transition of the model's state graph is replayed on the real SQL ref store with return value "
